@@ -16,7 +16,7 @@ from mappyfile.ordereddict import CaseInsensitiveOrderedDict as CI
 from mappyfile.pprint import PrettyPrinter
 from engine import tsp
 
-_WARM = tsp.printer(["map", "web", "layer", "class", "style", "feature", "symbol", "label"])   # resolve schema proxies outside tracing
+_WARM = tsp.printer(["map", "web", "layer", "class", "style", "feature", "symbol", "label", "scalebar"])   # resolve schema proxies outside tracing
 _VALIDATOR = _WARM.validator
 
 
@@ -40,7 +40,7 @@ def doc(s, n):
     md = CI(CI); md["__type__"] = "metadata"; md["wms_title"] = s; md["k"] = "v"
     web["metadata"] = md
     m["web"] = web
-    sb = D("scalebar"); sb["intervals"] = n
+    sb = D("scalebar"); sb["intervals"] = 4
     m["scalebar"] = sb                 # a singleton child block whose name (8) is longer than every simple keyword of MAP (7): not counted for alignment
     sym = D("symbol"); sym["name"] = "sq"; sym["type"] = "vector"; sym["points"] = [(1, 1), (n, 2)]
     m["symbols"] = [sym]
@@ -71,7 +71,7 @@ def spec(s, n, Q):
         (2, "kv", "IMAGEPATH", q("/tmp/"), "web"),
         (2, "open", "METADATA", None, None), (3, "kvq", q("wms_title"), q(s), "md"), (3, "kvq", q("k"), q("v"), "md"), (2, "end", "METADATA", None, None),
         (1, "end", "WEB", None, None),
-        (1, "open", "SCALEBAR", None, None), (2, "kv", "INTERVALS", repr(n), "scalebar"), (1, "end", "SCALEBAR", None, None),
+        (1, "open", "SCALEBAR", None, None), (2, "kv", "INTERVALS", "4", "scalebar"), (1, "end", "SCALEBAR", None, None),
         (1, "open", "SYMBOL", None, None),
         (2, "kv", "NAME", q("sq"), "symbol"), (2, "kv", "TYPE", "VECTOR", "symbol"),
         (2, "open", "POINTS", None, None), (3, "raw", "1 1", None, None), (3, "raw", repr(n) + " 2", None, None), (2, "end", "POINTS", None, None),
